@@ -13,7 +13,7 @@ RULE = ("renormalizeValue / rebaseTent / normalizeValue / piecewiseLinearMap: C0
 TRUSTED = ["uharfbuzz 0.52 as the independent variation engine"]
 ASSUMPTIONS = ["the Coq model covers axis renormalisation and tent rebasing (C09's model); table-level instancing (gvar/HVAR/MVAR/GPOS/avar/"
                "fvar/STAT/feature variations) is checked only by the HarfBuzz sweeps",
-               "rounding budget: 0.5 for the new default, 1.0 (0.5 without IUP optimisation) per instance tuple active at the location, 0.5 per original tuple of the glyph (dropped all-zero pieces); CFF2: 1.0 + 0.5 per preceding relative operand"]
+               "rounding budget: 0.5 for the new default, 1.0 (0.5 without IUP optimisation) per instance tuple active at the location, 0.5 per original tuple of the glyph (dropped all-zero pieces); CFF2: 1.0 + 0.5 per region of the instance's store per preceding relative operand (relative coordinates accumulate the rounding)"]
 
 def N(tier, q, t): return q if tier == "quick" else t
 
@@ -197,6 +197,11 @@ def compare_instance(data, inst_bytes, inst_font, axes, ranges, locs, texts, opt
     remaining = {a.axisTag for a in inst_font["fvar"].axes} if "fvar" in inst_font else set()
     per_tuple = 1.0 if optimize else 0.5
     cff2 = "CFF2" in f0
+    nreg = 1
+    if cff2 and "CFF2" in inst_font:
+        # every relative operand carries one rounded delta per region of the instance's store
+        try: nreg = max(1, inst_font["CFF2"].cff.topDictIndex[0].VarStore.otVarStore.VarRegionList.RegionCount)
+        except Exception: nreg = 4
     for loc in locs:
         h0 = HBFont(data, order, variations=dict(loc))
         h1 = HBFont(inst_bytes, order, variations={k: v for k, v in loc.items() if k in remaining})
@@ -216,7 +221,7 @@ def compare_instance(data, inst_bytes, inst_font, axes, ranges, locs, texts, opt
             devs = [max(abs(x[0] - y[0]), abs(x[1] - y[1])) for x, y in zip(a, b) if not isinstance(x, str)]
             if cff2:
                 # CFF2 stores RELATIVE coordinates: every rounded operand shifts all later points, the budget grows along the path
-                over = [d for i, d in enumerate(devs) if d > 1.0 + 0.5 * (i + 1) + 0.01]
+                over = [d for i, d in enumerate(devs) if d > 1.0 + 0.5 * nreg * (i + 1) + 0.01]
                 stats["max_cff2_dev"] = max([stats.get("max_cff2_dev", 0)] + devs)
                 dev = max(over or [0]); tol = 0.0 if over else tol
             else:
